@@ -249,6 +249,9 @@ func resetLayers(tier string) []resetLayer {
 	}
 	return []resetLayer{
 		saWide, saMultifill, // slowest shards first
+		// zero bytes after a history of non-zero bytes, written in small chunks: whatever is read from the margin
+		// behind the data (8-byte loads) must not reach the search structure
+		{Name: "hash-zero-after-nonzero", Kinds: HashKinds, Geos: wideGeos[:2], Level: 2, Prior: BinaryRange(2, 4), Next: InputSet{"{0x00,a}^1..5", func(f func([]byte)) { Strings([]byte{0, 'a'}, 1, 5, f) }}, Modes: []int{0, 4}, ResetKinds: []int{0, 2, 3}, Bound: 1},
 		// prior installed by Reset(data): the second Reset meets an array sized for the first one
 		{Name: "hash-prior-by-reset", Kinds: HashKinds, Geos: wideGeos[:2], Level: 2, Prior: BinaryRange(1, 5), Next: BinaryRange(2, 7), Modes: []int{4}, ResetKinds: []int{1, 2}, Bound: 0},
 		// priors long enough to fill and wrap every search structure (hash slots overwritten, bucket ring wrapped)
